@@ -1,6 +1,7 @@
 package main
 
 import (
+	"github.com/spf13/afero"
 	"archive/tar"
 	"bytes"
 	"encoding/json"
@@ -26,6 +27,8 @@ type fEnt struct {
 	Dir  bool
 	Data []byte
 	Mode int64
+	Sym  string // symbolic link member: target as written by tar (relative to the link's directory)
+	Hard string // hard link member: model path of the member it links to
 }
 
 func forCases(prop, tier string, seed uint64) []Case {
@@ -48,6 +51,10 @@ func forCases(prop, tier string, seed uint64) []Case {
 	}
 	pb, _ := json.Marshal(forP{Format: "pax", Root: "./", RS: 20, Witness: "chmod-foreign-member"})
 	cases = append(cases, Case{ID: "c17-witness-chmod-foreign-member", Seed: 5, Kind: "witness:chmod-foreign-member", P: pb})
+	for _, wn := range []string{"symlink-member", "hardlink-member"} {
+		pb, _ = json.Marshal(forP{Format: "pax", Root: "./", RS: 20, Witness: wn})
+		cases = append(cases, Case{ID: "c17-witness-" + wn, Seed: 5, Kind: "witness:" + wn, P: pb})
+	}
 	pb, _ = json.Marshal(forP{Format: "gnu", Root: "/", RS: 20, Pad: 17, Witness: "odd-padding"})
 	cases = append(cases, Case{ID: "c17-regress-odd-padding", Seed: subSeed(1, "C17", "quick", "34"), Kind: "random", P: pb})
 	return cases
@@ -57,7 +64,7 @@ func genForeignTree(seed uint64, format string) (map[string]*fEnt, []string) {
 	r := newRand(seed)
 	ents := map[string]*fEnt{}
 	var order []string
-	comps := []string{"d", "e", "sub", "a b", "x_y", "p%q", "data.bin", "README", "f1", "f2", "notes.txt"}
+	comps := []string{"d", "dd", "d_", "e", "sub", "a b", "x_y", "p%q", "data.bin", "README", "f1", "f2", "notes.txt", "D"}
 	if format == "pax" || format == "gnu" {
 		comps = append(comps, "ä", strings.Repeat("long", 30)+"-name") // non-ASCII and 124 bytes: PAX / GNU long-name territory
 		comps = append(comps, strings.Repeat("n", 100), strings.Repeat("m", 101), strings.Repeat("k", 255))
@@ -129,16 +136,21 @@ func writeForeignTar(p forP, ents map[string]*fEnt, order []string) ([]byte, err
 				h.Uname = strings.Repeat("U", 40)
 			}
 		}
-		if e.Dir {
+		switch {
+		case e.Dir:
 			h.Typeflag = tar.TypeDir
-		} else {
+		case e.Sym != "":
+			h.Typeflag, h.Linkname, h.Mode = tar.TypeSymlink, e.Sym, 0o777
+		case e.Hard != "":
+			h.Typeflag, h.Linkname = tar.TypeLink, name(e.Hard, false)
+		default:
 			h.Typeflag = tar.TypeReg
 			h.Size = int64(len(e.Data))
 		}
 		if err := tw.WriteHeader(h); err != nil {
 			return nil, fmt.Errorf("%s: %w", h.Name, err)
 		}
-		if !e.Dir {
+		if !e.Dir && e.Sym == "" && e.Hard == "" {
 			if _, err := tw.Write(e.Data); err != nil {
 				return nil, err
 			}
@@ -159,6 +171,16 @@ func forRun(prop, tier string, c Case, w *Worker) (res Result) {
 		kind = "witness:" + p.Witness
 	}
 	ents, order := genForeignTree(c.Seed, p.Format)
+	if p.Witness == "symlink-member" || p.Witness == "hardlink-member" {
+		// what `tar cf x.tar .` produces for a directory holding a file, a link to it and another file
+		ents = map[string]*fEnt{"/d": {Dir: true, Mode: 0o755}, "/d/f": {Data: []byte("hello"), Mode: 0o644}, "/z": {Data: []byte("zz"), Mode: 0o644}}
+		order = []string{"/d", "/d/f", "/d/l", "/z"}
+		if p.Witness == "symlink-member" {
+			ents["/d/l"] = &fEnt{Sym: "f"}
+		} else {
+			ents["/d/l"] = &fEnt{Hard: "/d/f", Mode: 0o644}
+		}
+	}
 	img, err := writeForeignTar(p, ents, order)
 	if err != nil && p.Format == "ustar" {
 		// a path this format cannot encode: fall back to the tree without long components
@@ -206,6 +228,8 @@ func forRun(prop, tier string, c Case, w *Worker) (res Result) {
 	for pp, e := range ents {
 		if e.Dir {
 			want[pp] = Entry{Kind: "d"}
+		} else if e.Sym != "" || e.Hard != "" {
+			want[pp] = Entry{Kind: "l"}
 		} else {
 			want[pp] = Entry{Kind: "f", Size: int64(len(e.Data)), RdLen: int64(len(e.Data)), Sum: sum(e.Data)}
 		}
@@ -216,6 +240,9 @@ func forRun(prop, tier string, c Case, w *Worker) (res Result) {
 			if !ok {
 				viol(phase+"|missing", "%s: member %q is not listed under its directory", phase, pp)
 				return false
+			}
+			if e.Kind == "l" {
+				continue // a link member has to be listed; how it presents itself is not judged
 			}
 			if g.Kind != e.Kind || g.Size != e.Size || g.RdLen != e.RdLen || g.Sum != e.Sum {
 				viol(phase+"|differs", "%s: member %q reads back as %+v, the archive holds kind=%s size=%d sum=%s", phase, pp, g, e.Kind, e.Size, e.Sum)
@@ -339,6 +366,105 @@ func forRun(prop, tier string, c Case, w *Worker) (res Result) {
 	if !cmp("after-add", t, want) {
 		return
 	}
+	// arbitrary further calls on original members and added entries alike: rename, remove, recursive remove, rewrite
+	nMut := 3 + r.Intn(4)
+	for i := 0; i < nMut; i++ {
+		var fs2, ds2 []string
+		for pp, e := range want {
+			if e.Kind == "f" {
+				fs2 = append(fs2, pp)
+			} else if pp != "/" {
+				ds2 = append(ds2, pp)
+			}
+		}
+		sort.Strings(fs2)
+		sort.Strings(ds2)
+		allDirs := append([]string{"/"}, ds2...)
+		moveTree := func(from, to string) {
+			for pp, e := range want {
+				if pp == from || strings.HasPrefix(pp, from+"/") {
+					delete(want, pp)
+					want[to+strings.TrimPrefix(pp, from)] = e
+				}
+			}
+		}
+		dropTree := func(from string) {
+			for pp := range want {
+				if pp == from || strings.HasPrefix(pp, from+"/") {
+					delete(want, pp)
+				}
+			}
+		}
+		what := ""
+		switch k := r.Intn(6); {
+		case k == 0 && len(fs2) > 0:
+			f := fs2[r.Intn(len(fs2))]
+			to := path.Join(allDirs[r.Intn(len(allDirs))], fmt.Sprintf("moved-%d", i))
+			what = fmt.Sprintf("Rename(%q,%q)", f, to)
+			log = append(log, what)
+			if err := rig.FS.Rename(f, to); err != nil {
+				viol("further|rename-file", "%s: %v", what, err)
+				return
+			}
+			moveTree(f, to)
+		case k == 1 && len(ds2) > 0:
+			d := ds2[r.Intn(len(ds2))]
+			var cands []string
+			for _, x := range allDirs {
+				if x != d && !strings.HasPrefix(x, d+"/") {
+					cands = append(cands, x)
+				}
+			}
+			to := path.Join(cands[r.Intn(len(cands))], fmt.Sprintf("moved dir-%d", i))
+			what = fmt.Sprintf("Rename(%q,%q)", d, to)
+			log = append(log, what)
+			if err := rig.FS.Rename(d, to); err != nil {
+				viol("further|rename-dir", "%s: %v", what, err)
+				return
+			}
+			moveTree(d, to)
+		case k == 2 && len(fs2) > 0:
+			f := fs2[r.Intn(len(fs2))]
+			what = fmt.Sprintf("Remove(%q)", f)
+			log = append(log, what)
+			if err := rig.FS.Remove(f); err != nil {
+				viol("further|remove", "%s: %v", what, err)
+				return
+			}
+			delete(want, f)
+		case k == 3 && len(ds2) > 0:
+			d := ds2[r.Intn(len(ds2))]
+			what = fmt.Sprintf("RemoveAll(%q)", d)
+			log = append(log, what)
+			if err := rig.FS.RemoveAll(d); err != nil {
+				viol("further|removeall", "%s: %v", what, err)
+				return
+			}
+			dropTree(d)
+		case len(fs2) > 0:
+			f := fs2[r.Intn(len(fs2))]
+			data := genContent([]int{0, 7, 700, 9000}[r.Intn(4)], "text", r.Uint64())
+			what = fmt.Sprintf("WriteFile(%q, %d bytes)", f, len(data))
+			log = append(log, what)
+			if err := afero.WriteFile(rig.FS, f, data, 0o644); err != nil {
+				viol("further|rewrite", "%s: %v", what, err)
+				return
+			}
+			want[f] = Entry{Kind: "f", Size: int64(len(data)), RdLen: int64(len(data)), Sum: sum(data)}
+		default:
+			continue
+		}
+		res.count("further_calls", 1)
+		rig.LocksSettled()
+		t, err = WalkTree(rig.FS, true)
+		if err != nil {
+			viol("further|walk", "walking after %s: %v", what, err)
+			return
+		}
+		if !cmp("after "+strings.SplitN(what, "(", 2)[0], t, want) {
+			return
+		}
+	}
 	// rebuild from the tape alone
 	rig.LocksSettled()
 	log = append(log, "rebuild")
@@ -384,6 +510,6 @@ func sortedKeys(t Tree) []string {
 func init() {
 	register(&Engine{Name: "foreign", Props: []string{"C17"}, Cases: forCases, Run: forRun})
 	propMeta["C17"] = PropMeta{Level: "exploration",
-		Rule:        "per case a generated tree (depth <= 4, names with spaces, non-ASCII, '_' and '%', one 124-byte component for PAX/GNU, sizes 0..40000) is written by archive/tar in USTAR, PAX or GNU format with members named under './', '/' or 'top/' and a top-level directory entry (optionally followed by blocking-factor padding), opened through the documented composition (Initialize + NewCacheFilesystem) with record size 1, 20 or 64; every member must be listed under its directory and read back byte-identical, three spellings of up to 12 paths must agree, 5-10 entries added through the filesystem must coexist with the members live and after a rebuild from the tape, and Initialize must not change the archive; non-trivial = at least 3 members; distinct = distinct archive bytes",
+		Rule:        "per case a generated tree (depth <= 4, names with spaces, non-ASCII, '_' and '%', one 124-byte component for PAX/GNU, sizes 0..40000) is written by archive/tar in USTAR, PAX or GNU format with members named under './', '/' or 'top/' and a top-level directory entry (optionally followed by blocking-factor padding), opened through the documented composition (Initialize + NewCacheFilesystem) with record size 1, 20 or 64; every member must be listed under its directory and read back byte-identical, three spellings of up to 12 paths must agree, 5-10 entries added through the filesystem must coexist with the members, 3-6 further calls (rename of a file / of a directory, Remove, RemoveAll, rewrite - on original members and added entries alike) must each leave exactly the expected tree, all of it live and after a rebuild from the tape, and Initialize must not change the archive; non-trivial = at least 3 members; distinct = distinct archive bytes",
 		Assumptions: []string{"the archive is written by archive/tar; blocking-factor padding as GNU tar produces it is imitated by appending zero blocks"}}
 }
